@@ -804,7 +804,8 @@ func checkChain(rp *reporter, idx int, rng *rand.Rand) {
 			if len(q.Storage) > 1 {
 				r.Count("rpc.responses_with_several_storage_contracts_verified", 1)
 			}
-			if idx < 40 {
+			if idx < 40 && len(q.Storage) > 0 && len(q.Classes) > 0 && r.Counter("samples.rpc") < 2 {
+				r.Count("samples.rpc", 1)
 				r.Sample(map[string]any{"kind": "rpc", "case": idx, "backend": backend, "version": q.Version, "request": req,
 					"classes": len(q.Classes), "contracts": len(q.Contracts), "storage_contracts": len(q.Storage)})
 			}
